@@ -106,6 +106,13 @@ func init() { props["C02"] = propC02 }
 
 func propC02(c *Ctx) {
 	r := c.rep
+	c.focusEntropies(func(li int, e []byte) {
+		l := int64(langVals[li])
+		c.chk("focus-word", l, c.specSentence(l, e))
+		if own := implEnc(l, e); strings.HasPrefix(own, "ok ") {
+			c.chk("focus-word:own-output", l, string(unhx(own[3:])))
+		}
+	})
 	r.Rule = "for entropies of the directed classes (5 sizes x 10 languages, leading-zero/all-zero/all-ones/single-bit/random, every list word at sampled positions) the spec sentence and the implementation's own NewMnemonicByEntropy output are fed to CheckMnemonic and IsMnemonicValid; expected: accepted (Spec.validStrict), identical to the model. Non-trivial = distinct chk ops whose answer is not the word-count rejection."
 	for li := range langVals {
 		l := int64(langVals[li])
@@ -327,6 +334,13 @@ func (c *Ctx) damageClasses(li, n int) {
 
 func propC03(c *Ctx) {
 	r := c.rep
+	c.focusEntropies(func(li int, e []byte) {
+		l := int64(langVals[li])
+		c.chk("focus-word", l, c.specSentence(l, e))
+		if own := implEnc(l, e); strings.HasPrefix(own, "ok ") {
+			c.chk("focus-word:own-output", l, string(unhx(own[3:])))
+		}
+	})
 	r.Rule = "chk ops (CheckMnemonic + IsMnemonicValid): for random and first-byte-zero prefixes ALL 2048 candidate last words (accept count must be 2^(11-n/3), accept set = spec), substitutions, transpositions, +-1..12 words, foreign-list words, damaged words, empty tokens, every separator variant, unsupported languages, raw/invalid bytes; verdict and error kind compared with the specification's classification over the canonical lists and with the model; every accept must satisfy Spec.validWs. Non-trivial = distinct ops not rejected by the count gate."
 	combos := [][2]int{}
 	for li := range langVals {
@@ -455,6 +469,7 @@ func propC05(c *Ctx) {
 		}
 		return impl
 	}
+	c.focusEntropies(func(li int, e []byte) { dec("focus-word", li, e) })
 	for li := range langVals {
 		for _, n := range entSizes {
 			c.entropyClasses(n, func(class string, e []byte) { dec(class, li, e) })
